@@ -6,7 +6,6 @@ NOT_APPLICABLE = {
     'C20': 'Line spans are arithmetic over runtime text offsets; the only structural proxy would be a frozen '
            'fragment of source.py (brittle text match).',
     'C37': 'SCC pipelines: behavioural equivalence of long transformation chains; not a code-shape fact.',
-    'C38': 'Storage sufficiency of stack/pool allocation is arithmetic over runtime sizes.',
     'C40': 'Idempotence is equality of the outputs of two runs; not decidable from code shape.',
     'C41': 'Well-formedness after every transformation lives in runtime scope chains; a generic undefined-name '
            'lint relabelled as this property would be dishonest.',
